@@ -139,7 +139,7 @@ class InducingPointKernel(Kernel):
 
         # The copy is in the same mode as the original (the constructor above leaves it in training mode), and its
         # inducing points are learnable iff the original's are
-        cp.train(self.training)
+        cp.training = self.training  # (the flag of the copy only: its children keep the modes they were copied with)
         cp.inducing_points.requires_grad_(self.inducing_points.requires_grad)
 
         if replace_inv_root:
